@@ -244,7 +244,7 @@ fn compress_write_fault(ctx: &mut Ctx) {
         return;
     }
     let source = Arc::new(data);
-    let run = |fault: Option<(&str, u64, crate::sys::FaultAction)>| {
+    let run = |fault: Option<(&str, crate::sys::Op, u64, crate::sys::FaultAction)>| {
         scen::quiet(|| {
             let _ = std::fs::remove_file("a.cba");
         });
@@ -256,10 +256,10 @@ fn compress_write_fault(ctx: &mut Ctx) {
         }
         crate::sys::with(|s| {
             s.log.clear();
-            if let Some((path, nth, action)) = &fault {
-                // (the seam counts the writes of a path over the whole run)
-                let base = s.path_mut(path).writes;
-                s.add_fault(path, crate::sys::Op::Write, base + *nth, action.clone());
+            if let Some((path, op, nth, action)) = &fault {
+                // (the seam counts the writes / opens of a path over the whole run)
+                let base = if *op == crate::sys::Op::Open { s.path_mut(path).opens } else { s.path_mut(path).writes };
+                s.add_fault(path, *op, base + *nth, action.clone());
             }
         });
         if lib {
@@ -277,9 +277,14 @@ fn compress_write_fault(ctx: &mut Ctx) {
     if !r1.is_success() {
         return;
     }
+    // one CLI run in five: not a write but an *open* of one of the files it writes fails (the
+    // creation of the temporary chunk file, its re-opening for the copy into the archive, the
+    // archive itself): EMFILE, ENFILE, EINTR, EIO, EACCES
+    let open_fault = !lib && gen::chance(1, 5);
+    let fault_op = if open_fault { crate::sys::Op::Open } else { crate::sys::Op::Write };
     let writes: std::collections::BTreeMap<String, u64> = crate::sys::with(|s| {
         let mut m = std::collections::BTreeMap::new();
-        for e in s.log.iter().filter(|e| e.op == crate::sys::Op::Write && e.ret > 0) {
+        for e in s.log.iter().filter(|e| if open_fault { e.op == crate::sys::Op::Open && e.ret >= 0 } else { e.op == crate::sys::Op::Write && e.ret > 0 }) {
             let p = s.path_name(e.path).to_string();
             if !p.starts_with('/') && p != "src.bin" {
                 *m.entry(p).or_insert(0) += 1;
@@ -298,21 +303,27 @@ fn compress_write_fault(ctx: &mut Ctx) {
         _ => gen::draw(count as u32) as u64,
     };
     let errno = *gen::t(|t| t.pick(&[libc::ENOSPC, libc::EIO, libc::EDQUOT]));
-    let action = if gen::chance(1, 3) { crate::sys::FaultAction::PartialThenErrno(1 + gen::draw(4096) as usize, errno) } else { crate::sys::FaultAction::Errno(errno) };
+    let action = if open_fault {
+        crate::sys::FaultAction::Errno(*gen::t(|t| t.pick(&[libc::EMFILE, libc::ENFILE, libc::EINTR, libc::EIO, libc::EACCES])))
+    } else if gen::chance(1, 3) {
+        crate::sys::FaultAction::PartialThenErrno(1 + gen::draw(4096) as usize, errno)
+    } else {
+        crate::sys::FaultAction::Errno(errno)
+    };
     // 2. the same compression with the fault
     let sched2 = scen::draw_schedule();
-    let r2 = run(Some((target.as_str(), nth, action.clone())));
+    let r2 = run(Some((target.as_str(), fault_op, nth, action.clone())));
     let fired = crate::sys::with(|s| !s.fault_fired.is_empty());
     let archive = scen::get_file("a.cba").unwrap_or_default();
     let desc = json!({"writer": if lib { "lib-into-file" } else if stdin { "cli-stdin" } else { "cli-file" }, "options": spec.json(), "source": sspec.json(), "schedules": [sched1, sched2],
-        "write_fault": {"file": target, "write": nth, "of": count, "action": format!("{:?}", action), "fired": fired}, "outcome": r2.short()});
+        "write_fault": {"file": target, if open_fault { "open" } else { "write" }: nth, "of": count, "action": format!("{:?}", action), "fired": fired}, "outcome": r2.short()});
     if ctx.want_sample {
         ctx.verdict.sample = Some(desc.clone());
     }
     if !fired {
         return;
     }
-    simkit::count("probe:compress-write-fault-fired");
+    simkit::count(if open_fault { "probe:compress-open-fault-fired" } else { "probe:compress-write-fault-fired" });
     if target.starts_with('<') {
         simkit::count(if r2.is_success() { "probe:write-fault-on-anonymous-temp-file:success" } else { "probe:write-fault-on-anonymous-temp-file:error" });
     }
@@ -325,7 +336,7 @@ fn compress_write_fault(ctx: &mut Ctx) {
         if !complete {
             ctx.fail(
                 "write-error-ignored",
-                format!("write #{} of {} on {:?} failed ({:?}), yet compress reported success and the archive ({} bytes) is not a complete archive of the source; {}", nth, count, target, action, archive.len(), desc),
+                format!("{} #{} of {} on {:?} failed ({:?}), yet compress reported success and the archive ({} bytes) is not a complete archive of the source; {}", if open_fault { "open" } else { "write" }, nth, count, target, action, archive.len(), desc),
             );
             return;
         }
